@@ -267,7 +267,10 @@ def _realise(sc, exp, workdir, emb, extra, order, wscale, perm, want, W):
     cunk = yaw.Catalog.from_dataframe(workdir / "unk", dunk, **kwu)
     crnd = yaw.Catalog.from_dataframe(workdir / "rnd", dunk, **kwu)
     # reference randoms: a second catalog with the records of the reference sample (RD and RR must then equal DD and DR)
-    crref = yaw.Catalog.from_dataframe(workdir / "rref", dref, redshift_name="z", **kw) if "cross" in want else None
+    # (only in every other scenario: a copy of the reference among the catalogs would hide a defect in the way the
+    # reference's own patch radii are used)
+    use_rref = "cross" in want and zlib.crc32(repr(exp["ref"]).encode()) % 4 < 2
+    crref = yaw.Catalog.from_dataframe(workdir / "rref", dref, redshift_name="z", **kw) if use_rref else None
     cfg = sc.yaw_config()
     # pre-history of the tree caches: the binned catalog has served the same edges with the OTHER closed side and edges
     # that differ by a relative 2e-6 before; the measurements below must not be influenced by what is cached
@@ -300,10 +303,11 @@ def _measure(yaw, sc, exp, want, W, cfg, cen, cref, cunk, crnd, crref, out, prog
         cfs = yaw.crosscorrelate(cfg, cref, cunk, ref_rand=crref, unk_rand=crnd, max_workers=W, progress=progress)
         out["cross"] = [cf.dd.counts.get_array().tolist() for cf in cfs]          # [scale][bin][i][j]
         out["cross_dr"] = [cf.dr.counts.get_array().tolist() for cf in cfs]
-        out["cross_rd"] = [cf.rd.counts.get_array().tolist() for cf in cfs]
-        out["cross_rr"] = [cf.rr.counts.get_array().tolist() for cf in cfs]
-        out["sw1_rd"] = cfs[0].rd.sum_weights.sum_weights1.tolist()                # reference randoms, binned like the reference
-        out["sw1_rr"] = cfs[0].rr.sum_weights.sum_weights1.tolist()
+        if crref is not None:
+            out["cross_rd"] = [cf.rd.counts.get_array().tolist() for cf in cfs]
+            out["cross_rr"] = [cf.rr.counts.get_array().tolist() for cf in cfs]
+            out["sw1_rd"] = cfs[0].rd.sum_weights.sum_weights1.tolist()                # reference randoms, binned like the reference
+            out["sw1_rr"] = cfs[0].rr.sum_weights.sum_weights1.tolist()
         out["sw1"] = cfs[0].dd.sum_weights.sum_weights1.tolist()                   # [bin][patch]
         out["sw2"] = cfs[0].dd.sum_weights.sum_weights2.tolist()
         out["cfs"] = cfs
